@@ -140,6 +140,9 @@ unsafe impl Send for SendToken {}
 /// the drop of the whole simulation)
 struct Lease {
     globals: std::sync::Weak<des::net::Globals>,
+    /// every other task keeps the global view itself (`let g = globals();` held across an await)
+    #[allow(dead_code)]
+    keep: Option<std::sync::Arc<des::net::Globals>>,
     path: String,
 }
 impl Drop for Lease {
@@ -319,7 +322,7 @@ pub fn spawn_tasks(m: usize, inc: u16, prog: &Rc<NetProgram>) {
         i.borrow_mut().insert(m, txs.clone());
     });
     for (ti, (spec, rx)) in specs.into_iter().zip(rxs.into_iter()).enumerate().take(6000) {
-        let lease = if prog.leases { Some(Lease { globals: std::sync::Arc::downgrade(&des::net::globals()), path: crate::net::module_path(prog, m) }) } else { None };
+        let lease = if prog.leases { Some(Lease { globals: std::sync::Arc::downgrade(&des::net::globals()), keep: if (m + ti) % 2 == 0 { Some(des::net::globals()) } else { None }, path: crate::net::module_path(prog, m) }) } else { None };
         let fut = Counted { m, inner: Box::pin(run_task(m, ti, inc, start, spec.clone(), rx, txs.clone(), SendToken(Token::task(), lease))) };
         let handle = if spec.local { tokio::task::spawn_local(fut) } else { tokio::spawn(fut) };
         match spec.join {
